@@ -145,7 +145,8 @@ def _case(t):
                                       seconds=4 if v[0] == 'hang' else 15, pass_level=(v[0] == 'hang'))
                 if v[0] == 'signal':
                     locus = v[1].strip() + ' @ ' + locus
-                elif locus.split(' > ')[0] in ('pass align_all', 'pass indent_text', 'pass do_code_width') and 'code_width' in cfg_text(cfgname):
+                elif locus.split(' > ')[0] in ('pass align_all', 'pass indent_text', 'pass do_code_width', 'pass quick_align_again') and 'code_width' in cfg_text(cfgname):
+                    # (quick_align_again() is the tail call of indent_text(): with -O2 its frame replaces indent_text's)
                     # these three passes run inside the driver's unbounded 'while (old_changes != cpd.changes)' width loop: a livelock of
                     # that loop is sampled in any of them, so they share one key
                     locus = 'width-loop (align_all/indent_text/do_code_width)'
